@@ -261,11 +261,10 @@ def run(run):
     run.pmap(run_case, cases, serial=True)
     # depth-2 operation sequences (state left behind by an earlier call)
     seq = [{"kind": "sequences", "scale": s, "full": run.thorough} for s in sorted(TABLES)]
-    if run.thorough:
-        seq += [{"kind": "sequences", "scale": s, "cross": True} for s in sorted(TABLES)]
+    seq += [{"kind": "sequences", "scale": s, "cross": True} for s in sorted(TABLES)]      # both tiers: a call of one scale, then every call of every scale
     run.pmap(run_case, seq)
     run.rule += ("; plus every ordered pair of calls (a, b) of one scale%s: module reloaded, a called, then every b (menu order and reversed) compared with the history-free table"
-                 % (" over the complete domain, and across scales over the reduced domain" if run.thorough else " over the reduced domain (-3..104, extremes, all labels and near misses)"))
+                 % (" over the complete domain, and across scales over the reduced domain" if run.thorough else " and across scales, over the reduced domain (-3..104, extremes, all labels and near misses)"))
     run.bound["sequence_depth"] = 2
     run.part.sample({"scale": "wep", "fn": "value_to_wep", "arg": 99, "expected": "Highly likely/Almost Certain"})
     run.part.sample({"scale": "admiralty_credibility", "fn": "admiralty_credibility_to_value", "arg": "6 - Truth cannot be judged", "expected": "ValueError"})
